@@ -70,6 +70,19 @@ M61 = (1 << 61) - 1
 WIDE_LETTERS = [(7, (1 << 64) | 7, 0), ((1 << 64) - 1, (1 << 64) | ((1 << 64) - 1), 0), (0, 0, 0), (M61, M61, 0), (1, (3 << 64) | 1, 0), (1 << 61, (3 << 64) | (1 << 61), 1)]
 
 
+def odd_names_design():
+  """children whose instance names are `s` and `top` (the name of the root scope in the dump), a child holding a child `s`, and wires
+  named like the implicit clock and reset of ANOTHER level (`clk2`, plus a port list)"""
+  leaf = lambda k: irgen.comp(f"Inc{k}", [("i", "in", B(4), ()), ("o", "out", B(4), ())],
+                              blocks=[("up_l", "comb", [("=", ref("o"), ("bin", "+", ref("i"), c(4, k)))])])
+  mid = irgen.comp("MidS", [("i", "in", B(4), ()), ("o", "out", B(4), ())], children=[("s", leaf(3))],
+                   connects=[(ref("i", path=("s",)), ref("i")), (ref("o"), ref("o", path=("s",)))])
+  sigs = [("in_", "in", B(4), ()), ("o1", "out", B(4), ()), ("o2", "out", B(4), ()), ("o3", "out", B(4), ())]
+  return irgen.comp("OddNames", sigs, children=[("s", leaf(1)), ("top", leaf(2)), ("m", mid)],
+                    connects=[(ref("i", path=("s",)), ref("in_")), (ref("i", path=("top",)), ref("in_")), (ref("i", path=("m",)), ref("in_")),
+                              (ref("o1"), ref("o", path=("s",))), (ref("o2"), ref("o", path=("top",))), (ref("o3"), ref("o", path=("m",)))])
+
+
 def design_list(tier):
   all_ = dict(irgen.all_designs())
   pick = ["chain:T4:w>w:flat", "chain:T4:w>s02:rchild", "chain:Sab:w>a:wchild", "chain:Npc:p>pa:rchild", "chain:SLal:w>l0:flat",
@@ -82,6 +95,7 @@ def design_list(tier):
   out.append(("c16:const-tied", const_design()))
   out.append(("c16:cmp-bits", cmp_design()))
   out.append(("c16:w64", wide_value_design()))
+  out.append(("c16:odd-names", odd_names_design()))
   out.append(("c16:wide:100", wide_design(100)))
   out.append(("c16:wide:200", wide_design(200)))
   return out
@@ -111,6 +125,10 @@ def _run_sequence(name, d, seq, acc, tag):
     top = cls()
     top.elaborate()
     top.apply(DefaultPassGroup(vcdwave=fname, textwave=True))
+    # a second design with waveform recording prepared in the same process (never simulated): it must not disturb the first one
+    bystander = cls()
+    bystander.elaborate()
+    bystander.apply(DefaultPassGroup(textwave=True))
     keys = sorted(ir.instances(d))
     # clk is not part of the IR instance table; every component has one
     read = eval("lambda s: (" + ", ".join(f"int({ir.inst_name(k)}.to_bits())" for k in keys) + ",)")
@@ -186,6 +204,9 @@ def _run_sequence(name, d, seq, acc, tag):
       want = ["0b" + format(smp[(path, sname, idx)], f"0{w}b") for smp in samples]
       if list(tw[nm]) != want:
         fails.append(("textwave:wrong-values", want[:4], list(tw[nm])[:4], nm))
+    btw = bystander.get_metadata(PrintTextWavePass.textwave_dict)
+    touched = sorted(k for k, v in btw.items() if len(v))
+    if touched: fails.append(("textwave:recorded-into-another-design", "the never-simulated design has an empty record", f"{len(btw[touched[0]])} samples of {touched[0]}", ""))
     acc.count("signal_cycles", len(expected) * len(samples))
     acc.add("nvars", (name, len(vcd.vars)))
     shared = sum(1 for s, l in bysym.items() if len(l) > 1)
@@ -212,12 +233,74 @@ def sequences(tier, small=False):
   return [list(s) for s in itertools.product(letters, repeat=L)]
 
 
+def check_hand(acc):
+  """an interface whose members are called clk / reset / mosi (ordinary data signals with those names): all of them are in the
+  text-wave record and in the VCD, with the simulated values; every sequence of the 3-letter alphabet up to length 4"""
+  import itertools as it
+  from pymtl3 import Component, Interface, InPort, OutPort, Wire, Bits1, Bits4, update, update_ff, DefaultPassGroup
+  from pymtl3.passes.tracing.PrintTextWavePass import PrintTextWavePass
+
+  class SpiIfc(Interface):
+    def construct(s):
+      s.clk = OutPort(Bits1)
+      s.mosi = OutPort(Bits4)
+      s.reset = InPort(Bits1)
+
+  class Spi(Component):
+    def construct(s):
+      s.in_ = InPort(Bits4)
+      s.spi = SpiIfc()
+      s.cnt = Wire(Bits4)
+
+      @update_ff
+      def ff_cnt():
+        if s.spi.reset: s.cnt <<= 0
+        else: s.cnt <<= s.cnt + 1
+
+      @update
+      def up_spi():
+        s.spi.clk @= s.cnt[0]
+        s.spi.mosi @= s.in_ ^ s.cnt
+
+  for L in (1, 2, 3, 4):
+    for seq in it.product(((3, 0), (9, 1), (15, 0)), repeat=L):
+      fname = f"c16_hand_{os.getpid()}"
+      top = Spi(); top.elaborate(); top.apply(DefaultPassGroup(vcdwave=fname, textwave=True))
+      want = {"s.spi.clk": [], "s.spi.mosi": [], "s.spi.reset": [], "s.in_": []}
+      cnt = 0
+      for v, r in seq:
+        top.in_ @= v; top.spi.reset @= r
+        top.sim_eval_combinational()
+        want["s.spi.clk"].append(format(cnt & 1, "01b")); want["s.spi.mosi"].append(format(v ^ cnt, "04b"))
+        want["s.spi.reset"].append(format(r, "01b")); want["s.in_"].append(format(v, "04b"))
+        top.sim_tick()
+        cnt = 0 if r else (cnt + 1) & 15
+      tw = top.get_metadata(PrintTextWavePass.textwave_dict)
+      acc.count("executions"); acc.count("transitions", L); acc.count("signal_cycles", 4 * L)
+      case = dict(hand="spi", seq=[list(x) for x in seq])
+      for nm, vals in want.items():
+        if nm not in tw: acc.violation(f"textwave:signal-missing:hand:{nm}", case, nm, "absent", "interface member named like the implicit clock / reset"); break
+        got = [x[2:] if x.startswith("0b") else x for x in tw[nm]]
+        if got != vals: acc.violation(f"textwave:wrong-values:hand:{nm}", case, vals, got, nm); break
+      text = open(fname + ".vcd").read(); os.remove(fname + ".vcd")
+      vcd = vcdparse.parse(text)
+      decl = {(scope, nm): sym for scope, nm, w, sym in vcd.vars}
+      for nm, vals in want.items():
+        key = (("top",), nm[2:])              # interface members are declared as `spi.clk` in the scope of their component
+        if key not in decl: acc.violation(f"vcd:signal-missing:hand:{nm}", case, "declared", "absent", str(key)); break
+        got = [format(vcd.value_at(decl[key], 100 * t), f"0{len(vals[0])}b") for t in range(L)]
+        if got != vals: acc.violation(f"vcd:wrong-value:hand:{nm}", case, vals, got, nm); break
+
+
 def shards(tier):
-  return list(range(len(design_list(tier))))
+  return list(range(len(design_list(tier)))) + ["hand"]
 
 
 def run_shard(shard, tier, seed):
   acc = Acc()
+  if shard == "hand":
+    check_hand(acc)
+    return acc
   name, d = design_list(tier)[shard]
   seqs = sequences(tier, small=("w64" if name == "c16:w64" else name.startswith("c16:wide")))
   for i, seq in enumerate(seqs):
@@ -232,6 +315,9 @@ def run_shard(shard, tier, seed):
 
 
 def replay(case):
+  if case.get("hand"):
+    acc = Acc(); check_hand(acc)
+    return [(v["sig"], v["expected"], v["observed"], v["msg"]) for v in acc.violations if v["case"]["seq"] == case["seq"]]
   d = ir.norm_comp(case["ir"])
   return run_sequence(case["design"], d, [tuple(x) for x in case["seq"]], Acc(), f"replay_{os.getpid()}", perm=case.get("perm", 0))
 
